@@ -121,7 +121,7 @@ func (e *engine) checkMergeLine(worker int, raw []byte) error {
 	}
 	e.rep.Count("transitions", 1)
 	last := patches[len(patches)-1]
-	if lib.Dialect == "v4" {
+	if lib.Dialect == "v4" && e.prop != "C04" {
 		// C19: object or array patches only (the legacy package rejects literal and null patches)
 		for _, p := range patches {
 			if p.T != "obj" && p.T != "arr" {
@@ -295,7 +295,7 @@ func (e *engine) checkDiffLine(worker int, raw []byte) error {
 		return err
 	}
 	e.rep.Count("transitions", 1)
-	if lib.Dialect == "v4" && (ln.Kind != "obj" || !ln.Roundtrip || !floatSpelled(a) || !floatSpelled(b)) {
+	if lib.Dialect == "v4" && e.prop != "C04" && (ln.Kind != "obj" || !ln.Roundtrip || !floatSpelled(a) || !floatSpelled(b)) {
 		// C19: objects whose numbers are spelled the way Go prints a float64, B without null members
 		e.rep.Label("LegacyOutsideDomain")
 		return nil
